@@ -25,7 +25,7 @@ static const char *z_opname(int k)
 enum { CF_ES, CF_JUNK, CF_RAND, CF_MAXN };
 
 #define MAXN 70100
-#define MAXES 5008
+#define MAXES 16400
 
 static unsigned char *arr, *scratch, *ref;      /* ref: harness copy (real heap) */
 static size_t es, n, kb;
@@ -420,7 +420,7 @@ static void z_exec(const plan_t *p)
 
 static void z_gen(prng_t *r, int mode, plan_t *p)
 {
-    static const int sizes[] = { 1, 2, 4, 8, 1, 2, 4, 8, 3, 5, 16, 24, 7, 12, 255, 256, 257, 300, 512, 1, 2, 4, 8, 3, 16, 1000, 1024, 1025, 1500, 2048, 2049, 4096, 4097, 5000 };
+    static const int sizes[] = { 1, 2, 4, 8, 1, 2, 4, 8, 3, 5, 16, 24, 7, 12, 255, 256, 257, 300, 512, 1, 2, 4, 8, 3, 16, 1000, 1024, 1025, 1500, 2048, 2049, 4096, 4097, 5000, 8191, 8192, 8193, 12288, 16384, 1, 2, 4, 8, 3, 16 };
     int huge = prng_chance(r, 1, 400);
     int large = !huge && prng_chance(r, 1, 20), small = !large && !huge && prng_chance(r, 1, 4);
     int rounds = huge ? 1 : 1 + (int)prng_below(r, 3), q, j;
